@@ -177,6 +177,41 @@ def patched(obj, name, value):
         setattr(obj, name, saved)
 
 
+def snapshot(obj):
+    """Canonical copy of every attribute in vars(obj): a solve must not change the configuration
+    of the optimizer object it was issued to."""
+    def canon(v):
+        if isinstance(v, dict):
+            return {str(k): canon(x) for k, x in sorted(v.items(), key=lambda kv: str(kv[0]))}
+        if isinstance(v, (list, tuple)):
+            return [canon(x) for x in v]
+        if isinstance(v, np.ndarray):
+            return ["ndarray", list(v.shape), [repr(float(x)) for x in v.reshape(-1)]]
+        if v is None or isinstance(v, (bool, str)):
+            return v
+        if isinstance(v, (int, np.integer)):
+            return int(v)
+        if isinstance(v, (float, np.floating)):
+            return repr(float(v))
+        if callable(v):
+            return "callable:" + getattr(v, "__qualname__", type(v).__qualname__)
+        return "object:" + type(v).__qualname__
+    return canon(dict(vars(obj)))
+
+
+#: fields of the stochastic solver objects that a solve is allowed to change (documented
+#: per-solve state; re-initialised at the start of the next solve)
+PER_SOLVE_STATE = {"sgd": {"_nfails"},
+                   "adam": {"_nfails", "_total_iterations", "_m", "_m_prev", "_v", "_v_prev"},
+                   "adagrad": {"_nfails", "_gnormsum"}}
+
+
+def config_change(before, after, allowed=()):
+    """Names of attributes (outside `allowed`) that differ between two snapshots."""
+    keys = (set(before) | set(after)) - set(allowed)
+    return sorted(k for k in keys if before.get(k, "<absent>") != after.get(k, "<absent>"))
+
+
 def canon_sample(r):
     subs, vals, wgts = r
     subs = np.asarray(subs)
@@ -844,6 +879,7 @@ class SolverScripted(Family):
             oracle = ScriptedOracle([float(Fraction(x)) for x in s["fs"]], s["gs"])
 
             def f(opt=opt, init=init, data=data, oracle=oracle, s=s):
+                cfg_before = snapshot(opt)
                 with patched(O, "estimate", oracle), quiet():
                     m, info = opt.solve(init, data, _FH, _GH, -np.inf if lb is None else lb,
                                         DummySampler(len(s["shape"])))
@@ -853,7 +889,8 @@ class SolverScripted(Family):
                         "nfails": int(opt._nfails), "n_boundaries": len(oracle.boundary),
                         "best_index": last_index_equal(oracle.boundary, fm),
                         "equal_indices": indices_equal(oracle.boundary, fm),
-                        "fs_seen": list(oracle.fs[: oracle.fi]), "state": opt_state(kind, opt)}
+                        "fs_seen": list(oracle.fs[: oracle.fi]), "state": opt_state(kind, opt),
+                        "cfg_changed": config_change(cfg_before, snapshot(opt), PER_SOLVE_STATE[kind])}
             r = call(f)
             results.append(r)
             if "ok" not in r:
@@ -923,6 +960,8 @@ class SolverScripted(Family):
                 r = sh["ok"]
                 feasible = lb is None or all(float(Fraction(x)) >= lb for A in s["init"] for row in A for x in row)
                 what = spec_solve(h, lb, s["init"], r, feasible)
+                if not what and r["cfg_changed"]:
+                    what = f"the solve changed the configuration of the solver object: {r['cfg_changed']}"
                 if what:
                     return Verdict("violation", f"solve #{k + 1} on the shared object: {what}", sh, mk, None, tags)
                 if r["nfails"] > 0:
@@ -1059,6 +1098,7 @@ class SolverReal(Family):
 
             def f(opt=opt, data=data, init=init, oracle=oracle, p=p, lb=lb, fh=fh, gh=gh, sampler=sampler):
                 np.random.seed(p["seed"])
+                cfg_before = snapshot(opt)
                 opt.update_step = rec_step
                 try:
                     with patched(O, "estimate", oracle), quiet():
@@ -1076,7 +1116,8 @@ class SolverReal(Family):
                         "nfails": int(opt._nfails), "n_boundaries": len(oracle.boundary),
                         "best_index": last_index_equal(oracle.boundary, fm),
                         "equal_indices": indices_equal(oracle.boundary, fm), "fs_seen": list(oracle.fs),
-                        "state": opt_state(kind, opt)}
+                        "state": opt_state(kind, opt),
+                        "cfg_changed": config_change(cfg_before, snapshot(opt), PER_SOLVE_STATE[kind])}
             state = np.random.get_state()
             try:
                 r = call(f)
@@ -1134,6 +1175,13 @@ class SolverReal(Family):
                 return Verdict("violation", f"solve #{k + 1} raised: {r.get('exc')}: {r.get('msg')}", r, None, None, tags)
             o = r["ok"]
             what = spec_solve(h, x["lb"], None, o, True)
+            if not what and o["cfg_changed"]:
+                what = f"the solve changed the configuration of the solver object: {o['cfg_changed']}"
+            if not what and x["steps"]:
+                # the documented per-solve state starts every solve from the state of a new object
+                b0 = x["steps"][0]["before"]
+                if b0["nfails"] != 0 or b0["total_iters"] != 0 or b0["m"] or b0["v"] or b0["gnormsum"] != 0.0:
+                    what = "the first step of the solve saw left-over optimizer state"
             if what:
                 return Verdict("violation", f"solve #{k + 1} on the shared object: {what}", r, None, None, tags)
             if o["nfails"] > 0:
